@@ -938,7 +938,6 @@ func enclosingDefer(f *FuncSrc, call *ast.CallExpr) (*ast.DeferStmt, bool) {
 	return found, found != nil
 }
 
-
 // checkCountRestores: Count's temporary SELECT / ORDER BY changes are paired with deferred restores on the
 // statement they were made on (shared by C06.execute-reset and C15.count-restore).
 func checkCountRestores(c *Ctx, r *Rule) {
